@@ -26,6 +26,7 @@ SAFE_SORT_VALUES = [
     'a', 'b', 'B', '', 'ab', 'é',
     b'a', b'b', b'',
     datetime.date(2020, 1, 2), datetime.date(2019, 5, 6),
+    datetime.datetime(2020, 1, 2, 3, 4, 5), datetime.datetime(2019, 5, 6, 7),
     (1, 'a'), (1, 'b'), (None, 2), (0,),
 ]
 
